@@ -34,13 +34,16 @@ def _configs(tier):
         ]
     else:
         plan = []
+        j = 0
         for lay in l0.LAYOUTS:
             for prof in l0.PROFILES:
                 for ctrl in l0.CONTROLLERS:
                     for clip in (False, True):
-                        for dt0 in (1, F(1, 4), 4):
-                            ma = 14 if ctrl.startswith("I") else 10
-                            plan.append((lay, prof, ctrl, clip, dt0, ma))
+                        # dt0 smaller / equal / larger than the checkpoint spacing, cycled over the 240 combinations
+                        dt0 = (1, F(1, 4), 4)[j % 3]
+                        j += 1
+                        ma = 14 if ctrl.startswith("I") else 10
+                        plan.append((lay, prof, ctrl, clip, dt0, ma))
     for lay, prof, ctrl, clip, dt0, ma in plan:
         cfgs.append(l0.make_config(lay, prof, ctrl, clip, dt0, max_att=ma))
     return cfgs
